@@ -13,6 +13,7 @@
 // bound) as soon as a party deviates; at most t parties deviate.
 #include "c15_sim.hh"
 #include <cassert>
+#include <time.h>
 
 using namespace vf;
 using namespace c15;
@@ -499,6 +500,26 @@ static void run_case(long k, const Scen &sc) {
 		W.dmax = sc.dmax; W.uni.preempt_p = sc.preempt; W.bc.preempt_p = sc.preempt;
 		for (size_t i = 0; i < sc.n; i++) { Party *p = new Party; p->i = i; P.push_back(p); }
 		for (size_t i = 0; i < sc.n; i++) { Party *p = P[i]; W.sched.spawn([&W, &sc, &G, p, k]() { party_main(W, sc, G, *p, k); }, ctx.seed | 1, (uint64_t)k * 1000003ULL + sc.sseed); }
+		if (ctx.option("watch") == "1") W.sched.spawn([&W, &P, &sc]() {   // debugging aid: dump the broadcast state every 5 virtual seconds
+			for (int round = 0; round < 400; round++) {
+				bool alldone = true; for (size_t i = 0; i < sc.n; i++) if (W.sched.tasks[i]->st != Task::DONE) alldone = false;
+				if (alldone) break;
+				for (auto p : P) { if (!p->rbc) continue; RBC *r = p->rbc;
+					fprintf(stderr, "[watch v=%ld] P%zu ID=%s deliver_buf=%zu:", g_vtime - 1600000000L, p->i, mpz_b62(r->ID).substr(0, 6).c_str(), r->deliver_buf.size());
+					for (auto &m : r->deliver_buf) fprintf(stderr, " (%s,%lu,%lu)", mpz_b62(m[0]).substr(0, 6).c_str(), mpz_get_ui(m[1]), mpz_get_ui(m[2]));
+					for (size_t j = 0; j < sc.n; j++) { fprintf(stderr, " | buf[%zu]:", j); for (auto id : r->buf_id[j]) fprintf(stderr, " %s", mpz_b62(id).substr(0, 6).c_str()); fprintf(stderr, " ds=%lu", mpz_get_ui(r->deliver_s[j])); }
+					fprintf(stderr, "\n");
+					for (size_t snd = 0; snd < sc.n; snd++) for (unsigned long sq = 1; sq <= 3; sq++) {
+						Z a(r->ID), b((unsigned long)snd), c(sq); RBC_ConstMessage mm; mm.push_back(a.v); mm.push_back(b.v); mm.push_back(c.v); mm.push_back(c.v); mm.push_back(c.v);
+						std::string tag; r->TagMessage(tag, mm);
+						size_t ne = 0, nr = 0, ns = 0; for (size_t l = 0; l < sc.n; l++) { ne += r->echo[l].count(tag); nr += r->ready[l].count(tag); ns += r->send[l].count(tag); }
+						if (mpz_cmp_ui(r->deliver_s[snd], sq) <= 0) fprintf(stderr, "      P%zu tag(%zu,%lu): send=%zu echo=%zu ready=%zu mbar=%zu dbar=%zu awaited=%zu\n", p->i, snd, sq, ns, ne, nr, r->mbar.count(tag), r->dbar.count(tag), r->awaited.count(tag));
+					}
+					for (size_t from = 0; from < sc.n; from++) if (!W.bc.q[from][p->i].empty()) fprintf(stderr, "      link %zu->%zu queued=%zu avail=%zu\n", from, p->i, W.bc.q[from][p->i].size(), W.bc.avail(from, p->i));
+				}
+				W.sched.wait([]() { return false; }, g_vtime + 5);
+			}
+		}, ctx.seed | 1, 0x77);
 		long t0 = g_vtime;
 		W.sched.run();
 		vdur = g_vtime - t0; hung = W.sched.hung;
@@ -555,6 +576,8 @@ static void run_case(long k, const Scen &sc) {
 		if (adj) count("path.share_adjusted"); if (rec) count("path.public_reconstruction"); if (compl_) count("path.complaint_received"); if (disq) count("path.party_disqualified");
 		if (rec && sc.proto == P_GJKR) count("path.gjkr_reconstruct");
 	}
+	if (ctx.option("dumplog") == "1") for (auto p : P) for (int ph = 0; ph < nphases(sc.proto); ph++)
+		fprintf(stderr, "---- party %zu%s phase %d ret=%d called=%d v=[%ld..%ld]\n%s", p->i, sc.faulty(p->i) ? " (FAULTY)" : "", ph, (int)p->snap[ph].ret, (int)p->snap[ph].called, p->snap[ph].vstart - 1600000000L, p->snap[ph].vend - 1600000000L, p->err[ph].str().c_str());
 	std::string sample = J().raw("scenario", sc.json()).kv("reached_oracle", V.reached).kv("oracle_evaluations", V.evals).kv("subsets", V.subsets).kv("virtual_seconds", vdur).kv("busy_wait_parks", (unsigned long long)parks).kv("broadcast_layer_msgs", (unsigned long long)sent_bc).kv("qual", P.empty() ? std::string("") : setstr(P[sc.faulty(0) ? (sc.faulty(1) ? 2 : 1) : 0]->snap[0].qual)).str();
 	for (auto p : P) delete p;
 	case_end(sc.json(), V.reached, sample, V.evals > 0 ? V.evals : 1, 1);
@@ -562,14 +585,18 @@ static void run_case(long k, const Scen &sc) {
 
 int main(int argc, char **argv) {
 	init(argc, argv);
-	null_cerr();
+	if (ctx.option("cerr") != "1") null_cerr();
 	if (!init_libTMCG()) { fprintf(stderr, "init_libTMCG failed\n"); return 2; }
 	std::vector<Scen> L; build_list(L);
 	if (ctx.option("list") == "1") { for (size_t k = 0; k < L.size(); k++) printf("%zu %s\n", k, L[k].json().c_str()); return 0; }
 	group(0);
+	bool timing = ctx.option("timing") == "1";
 	for (long k = 0; k < (long)L.size(); k++) {
 		if (!case_begin(k, L[k].json())) continue;
+		struct timespec a, b; clock_gettime(CLOCK_MONOTONIC, &a);
 		run_case(k, L[k]);
+		clock_gettime(CLOCK_MONOTONIC, &b);
+		if (timing) fprintf(stderr, "[timing] case %ld %.3f s %s\n", k, (b.tv_sec - a.tv_sec) + 1e-9 * (b.tv_nsec - a.tv_nsec), L[k].json().c_str());
 	}
 	finish();
 	return 0;
